@@ -276,9 +276,23 @@ _c("C14",
    "reachable by class statements), required-ness is monotone where the bases agree (C14_required_mono; unconditional statement "
    "refuted by a multi-base witness), unredeclared names resolve to the bases' member, one lemma per listed definition fault "
    "showing define raises (C14_fault_*), AbstractStructure. Hierarchies to depth 4 with mixins and every single-fault variant "
-   "are run on typedpy and compared with the model inside Coq.",
-   "Trusted: as C12. No totality theorem (valid statements define successfully): checked by correspondence.",
-   "Coq proof (induction over class hierarchies, per-fault lemmas) + model/implementation correspondence in vm_compute")
+   "are run on typedpy and compared with the model inside Coq; declarations are also written as bare Field classes / plain python "
+   "types (the model's statement is the one of the canonical constructor call). Two ENUMERATED streams are judged on the "
+   "implementation alone, outside the theorems (harness/c14lattice.py): (1) invalid and mutable defaults over 63 field spellings "
+   "(Field instance, bare Field class, user Field subclass, python type, typing / PEP 585 generic, Optional, |, AnyOf) x 6 default "
+   "spellings (=, = lambda, default=, default=lambda, annotation / assignment) x falsy and truthy values x 10 placements of the "
+   "declaration (root, between members, subclass, deep subclass, several bases with a mix-in, bottom of a diamond, redeclaration, "
+   "Abstract / Immutable child), oracle = the same declaration without default rejects the value at construction; (2) 13 hierarchy "
+   "shapes (chain, diamonds with leaf / tall sides, double diamond, three-wide, grid, two roots, triangle, mix-ins, abstract root) x "
+   "subsets of overriding classes x 6 override kinds, compared with the model in Coq and, on the implementation, field map "
+   "(get_all_fields_by_name) against attribute lookup along the MRO: same object, same default on instances, same accept / reject "
+   "as the class the field is inherited from.",
+   "Trusted: as C12. No totality theorem (valid statements define successfully): checked by correspondence. The field SPELLING is not "
+   "in the model (SDecl carries the field, not how it was written): spelling-dependent paths of StructMeta.__new__ "
+   "(_instantiate_fields_if_needed, _type_with_default_value_if_exists) are covered by the enumerated default lattice and the "
+   "generated Gen/DefineSrc.v bridge only, not by a theorem.",
+   "Coq proof (induction over class hierarchies, per-fault lemmas) + model/implementation correspondence in vm_compute + "
+   "enumerated spec-on-implementation lattices")
 _c("C16",
    "PARTIAL. Coq theorems (Props/C16.v, closed under the global context) over models of make_signature (Stubs/Signature.v) and of "
    "the stub generator at the level of (name, has-default, kind) (Stubs/StubModel.v), for hierarchies of any depth by induction: "
